@@ -446,7 +446,6 @@ VARIANTS += [
     V("C08", "docstring package looked up on the module search path", DP, "load(package_path.name, search_paths=[package_path.parent], docstring_parser=parser)", "load(package_path, docstring_parser=parser)", "C08.AMBIENT"),
     V("C08", "benign: search path given as a string", DP, "load(package_path.name, search_paths=[package_path.parent], docstring_parser=parser)", "load(package_path.name, search_paths=[str(package_path.parent)], docstring_parser=parser)", None),
     V("C01", "benign: search path given as a string", DP, "load(package_path.name, search_paths=[package_path.parent], docstring_parser=parser)", "load(package_path.name, search_paths=[str(package_path.parent)], docstring_parser=parser)", None),
-    V("C01", "package walk-up without the root test", DP, 'while (package_path.parent / "__init__.py").is_file() and package_path.parent != package_path:\n            package_path = package_path.parent', 'while (package_path.parent / "__init__.py").is_file():\n            package_path = package_path.parent', "C01.TERM"),
 ]
 VARIANTS += [
     V("C17", "abstract classes lose their superclass block", GEN, '        if superclasses:\n            for superclass in superclasses:\n                if superclass == "abc.ABC":', '        if superclasses and not class_.is_abstract:\n            for superclass in superclasses:\n                if superclass == "abc.ABC":', "C17.BRANCH"),
@@ -455,4 +454,10 @@ VARIANTS += [
     V("C20", "non-literal defaults marked as unknown values (the repair C20.DEFAULT-SOURCE asks for)", VIS, "                # in the package we analyze with Safe-DS.\n                return default_value, default_is_none", "                # in the package we analyze with Safe-DS.\n                return UnknownValue(), default_is_none", None),
     V("C06", "non-literal defaults marked as unknown values (the repair C20.DEFAULT-SOURCE asks for)", VIS, "                # in the package we analyze with Safe-DS.\n                return default_value, default_is_none", "                # in the package we analyze with Safe-DS.\n                return UnknownValue(), default_is_none", None),
     V("C06", "literal int default reported as unknown", MH, "    elif isinstance(expr, mp_nodes.IntExpr | mp_nodes.FloatExpr | mp_nodes.StrExpr):\n        return expr.value", "    elif isinstance(expr, mp_nodes.FloatExpr | mp_nodes.StrExpr):\n        return expr.value", "C06.LITERAL-VALUE"),
+]
+VARIANTS += [
+    V("C03", "every constructor target becomes an attribute", VIS, "            if not is_static and not (\n                isinstance(lvalue, mp_nodes.MemberExpr)\n                and isinstance(lvalue.expr, mp_nodes.NameExpr)\n                and getattr(lvalue.expr.node, \"is_self\", False)\n            ):\n                return attributes\n", "", "C03.ATTR-TARGETS"),
+    V("C03", "instance attributes of the constructor dropped", VIS, "                and getattr(lvalue.expr.node, \"is_self\", False)\n", "                and not getattr(lvalue.expr.node, \"is_self\", False)\n", "C03.ATTR-TARGETS"),
+    V("C03", "benign: receiver recognised by its name", VIS, "                and getattr(lvalue.expr.node, \"is_self\", False)\n", "                and lvalue.expr.name == \"self\"\n", None),
+    V("C12", "superclass alias lookup skipped for resolved classes (the repair C12.FLAGS asks for)", VIS, "                if superclass_name in self.aliases:\n", "                if superclass_name in self.aliases and not isinstance(superclass.node, mp_nodes.TypeInfo):\n", None),
 ]
